@@ -3694,7 +3694,12 @@ class locked_index:
         """Enter context manager and lock index."""
         f = GitFile(self._path, "wb")
         self._file = f
-        self._index = Index(self._path)
+        try:
+            self._index = Index(self._path)
+        except BaseException:
+            # __exit__ will not run: give the lock back here
+            f.abort()
+            raise
         return self._index
 
     def __exit__(
